@@ -51,8 +51,41 @@ def text_nesting_depth(data):
     return best
 
 
+DEF_TAGS = ('pattern', 'mask', 'clipPath', 'filter', 'marker', 'linearGradient', 'radialGradient')
+
+
+def converted_once(tag, attrs, by_id, depth=0):
+    """the converter's caches (paint_server::convert, clippath / mask / filter ::convert) keep this definition after its
+    first conversion.  Same rule as Model/Totality.v `cacheable` (derived from the cache lookup sites, Gen/Totality.v)."""
+    def a(name, at=None):
+        m = re.search(r'\b%s\s*=\s*"([^"]*)"' % re.escape(name), attrs if at is None else at)
+        return m.group(1) if m else None
+    if tag in ('linearGradient', 'radialGradient'):
+        return True
+    if tag == 'pattern':
+        # cached by id, but objectBoundingBox units / content units are resolved per user afterwards (update_paint_servers)
+        return a('patternUnits') == 'userSpaceOnUse' and a('patternContentUnits') != 'objectBoundingBox'
+    if tag == 'filter':
+        return a('filterUnits') == 'userSpaceOnUse' and a('primitiveUnits') in (None, 'userSpaceOnUse')
+    if tag in ('mask', 'clipPath'):
+        if tag == 'mask':
+            own = a('maskUnits') == 'userSpaceOnUse' and a('maskContentUnits') != 'objectBoundingBox'
+            link = a('mask')
+        else:
+            own = a('clipPathUnits') != 'objectBoundingBox'
+            link = a('clip-path')
+        if not own:
+            return False
+        m = re.match(r'\s*url\(#([^)]+)\)', link or '')
+        if m and m.group(1) in by_id and depth < 40 and by_id[m.group(1)][0] == tag:
+            return converted_once(tag, by_id[m.group(1)][1], by_id, depth + 1)
+        return True
+    return False            # marker: converted per vertex
+
+
 def fan_out(data):
-    """largest number of reference paths that reach one element: W(x) = sum over references to x of W(owner)"""
+    """largest number of conversions of one definition: W(x) = 1 for a definition the converter caches, else the sum over
+    the references to x of W(owner) (the number of reference paths that reach x)"""
     try:
         t = data.decode('utf-8', 'replace')
     except Exception:
@@ -60,6 +93,7 @@ def fan_out(data):
     # owner of a position = innermost enclosing element with an id (None at top level)
     stack = []
     owner_refs = {}                # owner id (or None) -> list of referenced ids
+    by_id = {}
     for tag in re.finditer(r'<(/?)([A-Za-z][A-Za-z0-9:]*)\b([^<>]*?)(/?)>', t):
         close, name, attrs, selfc = tag.groups()
         if close:
@@ -68,6 +102,8 @@ def fan_out(data):
             continue
         idm = re.search(r'\bid="([^"]*)"', attrs)
         my = idm.group(1) if idm else None
+        if my is not None and my not in by_id:
+            by_id[my] = (name, attrs)
         owner = my if my is not None else next((s for s in reversed(stack) if s is not None), None)
         for r in re.findall(r'url\(#([^)"]+)\)|href="#([^"]+)"', attrs):
             owner_refs.setdefault(owner, []).append(r[0] or r[1])
@@ -87,6 +123,8 @@ def fan_out(data):
         if depth > 60:
             return 1
         memo[x] = 1         # cycle guard
+        if x in by_id and by_id[x][0] in DEF_TAGS and converted_once(by_id[x][0], by_id[x][1], by_id):
+            return 1
         s = sum(W(o, depth + 1) for o in incoming.get(x, []))
         memo[x] = min(max(s, 1), 10 ** 12)
         return memo[x]
@@ -256,6 +294,9 @@ def run(ctx):
         "roxmltree, simplecss, svgtypes, flate2, fontdb/rustybuzz/ttf-parser, text layout, image decoders: unmodelled; their panics can only be found by the e2e oracle",
         "strict-num / tiny-skia-path constructors are modelled over the xq domain and compared with the real constructors (ctor correspondence)",
         "native stack use and CPU time are observed by the harness workers (signal / timeout / clock_gettime), not proved",
+        "tools/gen_totality.py (regex scanner: constructor bodies, guards in front of unwrap sites, loops, cache lookup sites); loop ledger classes "
+        "LCounter / LGenId / LOwned / LReviewed of coq/Proofs/Totality.v are NOT proved; `for` loops and recursion are not listed",
+        "cache linearity (C01_cached_conversions_linear) is about sequential requests: re-entrancy is excluded by C03's acyclicity theorems, not here",
     ]
     ctx.assumptions = [
         "model of the svgtree construction: elements, ids, href links; text content, CSS and attribute copying are not modelled",
@@ -270,6 +311,15 @@ def run(ctx):
             proof_ok = False
             res['audit'].append('coqchk rejected the compiled closure of Props/C01.vo')
     ledger_stats(ctx)
+    if not proof_ok:
+        # model-level search: values (xq samples) that pass the guard in front of a NonZeroF32::new(v).unwrap() site and are
+        # rejected by the constructor as it is written now (only Gen/ and Model/ files are needed for this)
+        rc_, out_ = ctx.coq_eval('k_unguarded', "From Coq Require Import List String.\nImport ListNotations.\n"
+                                 "Eval vm_compute in (map (fun u => match u with (f, g, t, v, gd) => (t, unguarded_values gd) end) G_NONZERO_F32_UNWRAPS).\n",
+                                 ['Model.Xq', 'Gen.Totality', 'Model.Totality'], timeout=200)
+        if rc_ == 0 and re.search(r"X(?:PInf|NInf|NaN|Fin)", out_):
+            ctx.log("model level: values that pass the guard of an unwrap site but are rejected by NonZeroF32::new: %s" % re.sub(r"\s+", " ", out_)[-600:])
+            ctx.cov['unguarded_model_values'] = re.sub(r"\s+", " ", out_)[-600:]
 
     bins = {}
     for prof in ('release', 'debug'):
@@ -357,10 +407,26 @@ def run(ctx):
     for label, data in G.malformed(rng, seeds):
         add("malformed: " + label, 'malformed', data)
 
+    # round 4, crash-isolated streams (one worker process per document, short time limit): reference chains of every link
+    # kind and shape (plain, cycle, rho = tail + cycle) x units; feConvolveMatrix kernels and numeric fields that are finite
+    # one by one but overflow in the sums / products formed before a validated constructor; definition chains with fan-out 2
+    # reached directly and through use / symbol / nested svg / marker contexts (depth 18 where the converter caches the
+    # definition - a linear job, 0.3 ms measured - and depth 8 where it converts per reference, the known fan-out class)
+    for label, d in G.link_chain_docs():
+        add(label, 'linkchain', d.encode())
+    for label, d in G.convolve_docs():
+        add(label, 'numsum', d.encode())
+    for i in range(800 if quick else 8000):
+        add("numeric sums %d" % i, 'numsum', G.sum_doc(rng).encode())
+    for label, cached, d in G.context_bomb_docs(18, 8):
+        add(label, 'ctxbomb', d.encode())
+    ISOLATED = ('linkchain', 'numsum', 'ctxbomb')
+    iso_idx = [i for i, x in enumerate(inputs) if x[1] in ISOLATED]
+
     # options: every input with the default options; a seeded subset of the cheap streams crossed with the option sets
     HEAVY = ('nesting', 'bomb', 'entity')
     heavy_idx = [i for i, x in enumerate(inputs) if x[1] in HEAVY or '/verif/corpus/' in x[2] or x[0].startswith('corpus/c0')]
-    heavy_set = set(heavy_idx)
+    heavy_set = set(heavy_idx) | set(iso_idx)
     light_idx = [i for i in range(len(inputs)) if i not in heavy_set]
     jobs = [(i, '-') for i in light_idx]
     ncross = 600 if quick else 8000
@@ -369,7 +435,8 @@ def run(ctx):
     rng.shuffle(jobs)
     hjobs = [(i, '-') for i in heavy_idx] + [(i, rng.choice(G.OPTION_SETS[1:])) for i in heavy_idx
                                              if inputs[i][1] != 'bomb' and '/corpus/c0' not in inputs[i][2]]
-    ctx.log("e2e inputs: %d documents, %d + %d (document, options) jobs" % (len(inputs), len(jobs), len(hjobs)))
+    ijobs = [(i, '-') for i in iso_idx] + [(i, rng.choice(G.OPTION_SETS[1:])) for i in iso_idx if inputs[i][1] == 'numsum' and rng.below(4) == 0]
+    ctx.log("e2e inputs: %d documents, %d + %d + %d (document, options) jobs" % (len(inputs), len(jobs), len(hjobs), len(ijobs)))
 
     hist = {}
     outcomes = {}
@@ -458,6 +525,17 @@ def run(ctx):
             judge(prof, i, o, res_)
         if len(ctx.violations) > 12:
             break
+        # isolated streams: a hang costs one short time limit (4 s release / 8 s debug: 13x / 10x the slowest legal document
+        # of these streams, 0.3 s / 0.8 s CPU) and nothing else
+        iitems = ["%s\t%s" % (o, inputs[i][2]) for i, o in ijobs]
+        iouts = batch(bins[prof], 'c01-parse', iitems, per_item_timeout=4 if prof == 'release' else 8, chunk=1, grace=1)
+        ctx.log("%s: %d isolated jobs done" % (prof, len(ijobs)))
+        for (i, o), res_ in zip(ijobs, iouts):
+            judge(prof, i, o, res_)
+            if len(ctx.violations) > 12:
+                break
+        if len(ctx.violations) > 12:
+            break
     ctx.cov['e2e_cases'] = sum(hist.values())
     ctx.cov['e2e_streams'] = hist
     ctx.cov['e2e_outcomes'] = outcomes
@@ -469,7 +547,9 @@ def run(ctx):
         if not ctx.violations:
             ctx.violation("C01 proof obligations no longer check: %s %s" % (res['failed'] + res['audit'], [b['name'] + ': ' + b['err'][:300] for b in broken]),
                           dict(failed_files=res['failed'], audit=res['audit'], broken_ties=broken, log_tail=res['log'][-3000:],
-                               hint="a new or changed panic site has no entry in coq/Proofs/Ledger.v (see coq/Gen/Sites.lines.txt)"),
+                               hint="a new or changed panic site has no entry in coq/Proofs/Ledger.v (see coq/Gen/Sites.lines.txt); or a loop has no / a "
+                                    "stale entry in the loop ledger of coq/Proofs/Totality.v (see coq/Gen/Loops.lines.txt); or a guard no longer covers "
+                                    "a constructor's reject list / a cache lookup site changed (coq/Gen/Totality.v)"),
                           found_input=False)
         else:
             ctx.log("proof obligations no longer check: %s %s (failing inputs reported above)" % (res['failed'] + res['audit'], [b['name'] for b in broken]))
@@ -506,6 +586,13 @@ def ledger_stats(ctx):
                              proved_guard_lemma=n_guard, proved_index_under_length_guard=n_auto_index,
                              constant_argument_computed=n_auto_ctor + n_const,
                              reviewed_not_proved=len(reviewed), known_finding_not_proved=len(known))
+    # loop ledger (Proofs/Totality.v): proved = visited-set walks + finder loops of the pre-pass
+    try:
+        tsrc = open(os.path.join(vlib.COQ, 'Proofs', 'Totality.v')).read()
+        tsrc = tsrc[tsrc.find('Definition loop_ledger'):]
+    except OSError:
+        tsrc = ''
+    ctx.cov['loop_ledger'] = {k: len(re.findall(r',\s*%s\b' % k, tsrc)) for k in ('LVisited', 'LFinder', 'LCounter', 'LGenId', 'LOwned', 'LReviewed')}
     ctx.cov['ledger_proved'] = n_guard + n_auto_index
     ctx.cov['ledger_const'] = n_auto_ctor + n_const
     ctx.cov['ledger_reviewed'] = len(reviewed)
@@ -552,6 +639,11 @@ def ctor_corr(ctx, binp):
         for b2 in bits:
             items.append("size\t%08x,%08x" % (b1, b2))
             terms.append("(x_size %s %s)" % (xq_of_bits(b1), xq_of_bits(b2)))
+    # usvg's own NonZeroF32::new against the predicate READ FROM tree/mod.rs (Gen/Totality.v G_NONZERO_F32_REJECTS, evaluated
+    # over the xq domain): the values above and the subnormals next to zero (0..6 ulps, both signs)
+    for b in bits + [1, 2, 3, 4, 5, 6, 0x80000001, 0x80000004, 0x80000005, 0x00800000]:
+        items.append("nonzero\t%08x" % b)
+        terms.append("(x_nonzero_f32 %s)" % xq_of_bits(b))
     rect_bits = [f32_bits(v) for v in (0.0, 1.0, -1.0, 0.5, 100.0, 3e38, -3e38, float('inf'), float('nan'), 1e-40)]
     for l in rect_bits:
         for r in rect_bits:
@@ -580,7 +672,7 @@ def ctor_corr(ctx, binp):
     body = ("From Coq Require Import QArith List Bool.\nImport ListNotations.\nLocal Open Scope Q_scope.\n"
             "Definition cases : list (bool * bool) := [\n%s\n].\n"
             "Eval vm_compute in (xq_bad cases).\n" % ";\n".join("(%s, %s)" % (t, i) for t, i in zip(terms, impl)))
-    rc, out = ctx.coq_eval('k_ctor', body, ['Model.Xq', 'Model.XqChk'], timeout=300)
+    rc, out = ctx.coq_eval('k_ctor', body, ['Model.Xq', 'Model.XqChk', 'Gen.Totality', 'Model.Totality'], timeout=300)
     bad = ctx.parse_N_list(out) if rc == 0 else None
     if bad is None:
         ctx.violation("model evaluation for the ctor correspondence failed", dict(log=out[-1500:]), found_input=False)
